@@ -350,7 +350,7 @@ theorem establish_cases (cfg : Cfg) (w : World) (a lseid : Nat) (r : EstReq) :
       (establish cfg w a lseid r).2.upSeid = none) ∨
     ∃ s : Session, s.lseid = lseid ∧ (establish cfg w a lseid r).1.tables = sendAdd cfg w.tables s.pdrs s.fars s.qers ∧
       (establish cfg w a lseid r).1.conns = setL w.conns a { w.conn a with sessions := (w.conn a).sessions ++ [s] } ∧
-      mapFars cfg lseid r.cpIP false r.fars = Except.ok (s.fars) := by
+      mapFars cfg lseid r.cpIP false r.fars = Except.ok (s.fars) ∧ (establish cfg w a lseid r).2.upSeid = some lseid := by
   unfold establish
   dsimp only
   by_cases hne : r.nodeID ≠ (w.conn a).remoteNode
@@ -369,7 +369,7 @@ theorem establish_cases (cfg : Cfg) (w : World) (a lseid : Nat) (r : EstReq) :
                          pdrs := (markSessionQer (markSessionQer pdrs (r.qers.map fun ie => { parseQER lseid ie with fseidIP := r.cpIP })).2
                                    (r.qers.map fun ie => { parseQER lseid ie with fseidIP := r.cpIP })).2,
                          fars := fars,
-                         qers := (markSessionQer pdrs (r.qers.map fun ie => { parseQER lseid ie with fseidIP := r.cpIP })).1 }, rfl, ?_, ?_, rfl⟩
+                         qers := (markSessionQer pdrs (r.qers.map fun ie => { parseQER lseid ie with fseidIP := r.cpIP })).1 }, rfl, ?_, ?_, rfl, rfl⟩
         · rw [setConn_tables]
         · rw [setConn_conns]
 
@@ -405,7 +405,7 @@ def newSession (cfg : Cfg) (w : World) (a lseid : Nat) (r : EstReq) : Option Ses
 theorem establish_inv (cfg : Cfg) (w : World) (a lseid : Nat) (r : EstReq) (hI : Inv cfg w)
     (henv : (establish cfg w a lseid r).2.upSeid.isSome → ∀ s : Session, newSession cfg w a lseid r = some s → ∀ s' ∈ allSessions w, Disj cfg s s') :
     Inv cfg (establish cfg w a lseid r).1 := by
-  rcases establish_cases cfg w a lseid r with ⟨hc, ht, _⟩ | ⟨s, hl, ht, hc, _⟩
+  rcases establish_cases cfg w a lseid r with ⟨hc, ht, _⟩ | ⟨s, hl, ht, hc, _, _⟩
   · exact hI.congr hc ht
   · obtain ⟨rest, p1, p2⟩ := conn_sublist_perm w a hI.keys
     have hacc : (establish cfg w a lseid r).2.upSeid.isSome := by
